@@ -39,7 +39,8 @@ def ref_to_str(t: int, v: bytes) -> str:
         return 'sha256digest=' + v.hex()
     if t == 2:
         return 'params-sha256=' + v.hex()
-    if t in CONV:
+    if t in CONV and len(v) <= 8:
+        # (the numbers of the naming conventions have at most 8 bytes; a longer value is not a number and is written generically)
         return f'{CONV[t]}={int.from_bytes(v, "big")}'
     return ref_canonical(t, v)
 
@@ -77,7 +78,7 @@ def check_component(t, v, viol, tag):
         su = Component.to_str(c)
         if su != ref_to_str(t, v):
             viol.append((f'C09|{tag}|uri-text', f'type {t} value {v[:8].hex()}: {su[:40]!r} != {ref_to_str(t, v)[:40]!r}'))
-        if t not in CONV or canonical_number(v):
+        if t not in CONV or canonical_number(v) or len(v) > 8:
             back = Component.from_str(su)
             if bytes(back) != exp:
                 viol.append((f'C09|{tag}|uri-roundtrip', f'type {t} value {v[:8].hex()} len {len(v)}: from_str(to_str) = {bytes(back)[:12].hex()}'))
@@ -346,7 +347,15 @@ def unit(arg):
                     acc.evaluations += 1
                     if n > 84:
                         acc.nontrivial += 1
-        acc.sample({'value_lengths': '0..300,65535,65536', 'contents': ['literal', 'all escaped', 'mixed'], 'types': [8, 32, 300]})
+        # values of any length under the typed-number component types (not numbers beyond 8 bytes, but legal components)
+        for n in list(range(0, 20)) + [64, 253, 1786, 1787, 2000, 65535]:
+            for v in (b'\x01' * n, b'\x00' * n, b'\xff' * n):
+                for t in (0x32, 0x36, 0x3A):
+                    check_component(t, v, viol, 'vlen-typed')
+                    acc.evaluations += 1
+                    acc.nontrivial += 1
+        acc.sample({'value_lengths': '0..300,65535,65536', 'contents': ['literal', 'all escaped', 'mixed'], 'types': [8, 32, 300],
+                    'typed_number_types': 'lengths 0..19, 64, 253, 1786, 1787, 2000, 65535'})
     elif k == 'numbers':
         for n in NUMBERS[arg['lo']:arg['hi']]:
             for t, pre in CONV.items():
